@@ -155,6 +155,11 @@ func main() {
 			nb, changed, err := rewrite(src, b, r.swaps, wantY)
 			if err == nil && changed {
 				nb = orderRanges(nb, r.ordered[name])
+				for _, e := range r.ordered[name] {
+					if !strings.Contains(string(nb), "sync.Ordered("+e+")") {
+						fmt.Printf("simgen: WARNING %s: no range over %s was rewritten to ordered iteration\n", name, e)
+					}
+				}
 			}
 			if err != nil {
 				fatal("rewrite %s: %v", src, err)
@@ -491,7 +496,7 @@ func patchOtter(repo, out string) error {
 	}
 	src := filepath.Join(cache, "github.com", "maypok86", "otter@"+string(m[1]))
 	stamp := filepath.Join(out, ".version")
-	if b, err := os.ReadFile(stamp); err == nil && string(b) == string(m[1])+" knob1" {
+	if b, err := os.ReadFile(stamp); err == nil && string(b) == string(m[1])+" knob2" {
 		return nil
 	}
 	os.RemoveAll(out)
@@ -522,6 +527,16 @@ func patchOtter(repo, out string) error {
 				b = []byte(strings.ReplaceAll(string(b), anchor, "\tbufferCapacity := SimBatch\n") + "\n// SimBatch is the number of write tasks applied together (simulation knob).\nvar SimBatch = 64\n")
 				patched = true
 			}
+			// the expiry sweep and the cache's one-second clock both wake at
+			// whole seconds, and which of the two goes first - the sweep seeing
+			// the new second or the old one - is a toss-up that nothing owns:
+			// the sweep's phase against the clock becomes a knob
+			const sweep = "\t\ttime.Sleep(time.Second)\n"
+			if strings.Count(string(b), sweep) == 1 {
+				b = []byte(strings.Replace(string(b), sweep, "\t\ttime.Sleep(time.Second + simSkewOnce())\n", 1) + "\n// SimSkew shifts the expiry sweep against the one-second clock (simulation knob).\nvar SimSkew time.Duration\n\nfunc simSkewOnce() time.Duration {\n\td := SimSkew\n\tSimSkew = 0\n\treturn d\n}\n")
+			} else {
+				fmt.Println("simgen: WARNING otter expiry sweep anchor not found")
+			}
 		}
 		return os.WriteFile(filepath.Join(out, rel), b, 0o644)
 	})
@@ -531,15 +546,16 @@ func patchOtter(repo, out string) error {
 	if !patched {
 		return fmt.Errorf("otter: batch-size anchor not found")
 	}
-	knob := "package otter\n\nimport \"github.com/maypok86/otter/internal/core\"\n\n// SetSimBatch sets the write batch size of caches built afterwards (simulation knob).\nfunc SetSimBatch(n int) {\n\tif n > 0 {\n\t\tcore.SimBatch = n\n\t}\n}\n"
+	knob := "package otter\n\nimport (\n\t\"time\"\n\n\t\"github.com/maypok86/otter/internal/core\"\n)\n\n// SetSimBatch sets the write batch size of caches built afterwards (simulation knob).\nfunc SetSimBatch(n int) {\n\tif n > 0 {\n\t\tcore.SimBatch = n\n\t}\n}\n\n// SetSimSkew shifts the expiry sweep of the cache built next against the one-second clock.\nfunc SetSimSkew(d time.Duration) { core.SimSkew = d }\n"
 	if err := os.WriteFile(filepath.Join(out, "simknob.go"), []byte(knob), 0o644); err != nil {
 		return err
 	}
 	fmt.Println("simgen: otter", string(m[1]), "copied, write batch size is a knob")
-	return os.WriteFile(stamp, []byte(string(m[1])+" knob1"), 0o644)
+	return os.WriteFile(stamp, []byte(string(m[1])+" knob2"), 0o644)
 }
 
-var rangeRe = regexp.MustCompile(`(?m)^(\s*)for (\w+)(?:, (\w+))? := range ([\w.]+) \{[ \t]*$`)
+// (the inserted scheduling point, if any, follows the brace on the same line)
+var rangeRe = regexp.MustCompile(`(?m)^(\s*)for (\w+)(?:, (\w+))? := range ([\w.]+) \{( vsimy\.Y\(\);)?[ \t]*$`)
 
 // orderRanges rewrites `for k[, v] := range <expr> {` for the listed map
 // expressions; the line count is unchanged.
@@ -566,6 +582,7 @@ func orderRanges(src []byte, exprs []string) []byte {
 		if v != "" && v != "_" {
 			out += fmt.Sprintf(" %s := %s[%s];", v, expr, k)
 		}
+		out += string(sm[5])
 		return []byte(out)
 	})
 }
